@@ -273,7 +273,26 @@ func runHist(cfg *config) error {
 				parked = true
 			}
 		}
-		sig["parked_sync"] = parked
+		// ... and is the held sync what makes the history fail? (the same history with plain syncs passes)
+		parkNeeded := false
+		if parked {
+			plain := *small
+			plain.Steps = nil
+			for _, st := range small.Steps {
+				switch st.Op {
+				case "Sq":
+					st.Op, st.Park = "S", ""
+					plain.Steps = append(plain.Steps, st)
+				case "Sw":
+				default:
+					plain.Steps = append(plain.Steps, st)
+				}
+			}
+			if _, ps5 := runOne(&plain); len(ps5) == 0 {
+				parkNeeded = true
+			}
+		}
+		sig["parked_sync"] = parkNeeded
 		// did a storage fault fire after the pushed changes were stored and before the client's
 		// checkpoint was (finding P8)?
 		window := false
@@ -282,6 +301,20 @@ func runHist(cfg *config) error {
 				if strings.HasSuffix(so.Fault, "/window") {
 					window = true
 				}
+			}
+		}
+		if window {
+			// is the fault what makes the history fail? (the same history with the response merely lost passes)
+			plain := *small
+			plain.Steps = nil
+			for _, st := range small.Steps {
+				if st.Op == "Sx" {
+					st.Op, st.FaultN, st.FaultAfter = "Sl", 0, false
+				}
+				plain.Steps = append(plain.Steps, st)
+			}
+			if _, ps6 := runOne(&plain); len(ps6) > 0 {
+				window = false
 			}
 		}
 		sig["push_window_fault"] = window
